@@ -21,6 +21,7 @@ CONSTANTS
   EXTRAS,     \* subset of {0, 1, 2}: no second AVS / a second AVS (asset ASSETS[2] only) listed BEFORE / AFTER the chain AVS
   FEES, PATHS, BURNS, DELAMTS,
   MAXDEL,     \* delegations per behaviour
+  MAXJAIL,    \* validators jailed per behaviour (the validator keeps its power, all its stakers' active value becomes 0)
   MAXEPOCHS,  \* blocks with at least one epoch end per behaviour
   MAXOPS,     \* events per behaviour (Setup included)
   GENSUPPLY
@@ -35,7 +36,7 @@ IdxOf(o) == CHOOSE i \in DOMAIN OPS : OPS[i] = o
 AllTrue == [supply |-> TRUE, moved |-> TRUE, booked |-> TRUE, prop |-> TRUE, split |-> TRUE, part |-> TRUE, panic |-> FALSE]
 
 NoEnv == [tax |-> N0, reward |-> N0, distId |-> "", mintId |-> "", ltp |-> N0, vals |-> <<>>,
-          rate |-> EmptyFn, ent |-> EmptyFn, pw |-> <<>>, xa |-> 0]
+          rate |-> EmptyFn, ent |-> EmptyFn, pw |-> <<>>, xa |-> 0, jailed |-> {}]
 
 Init ==
   /\ st = [ZeroSt EXCEPT !.supply = GENSUPPLY]
@@ -68,7 +69,10 @@ Entries(ds, pw, o, xa) ==
   IF xa = 1 THEN ExtraEntries(ds, pw, o) \o BaseEntries(ds, pw, o)
   ELSE IF xa = 2 THEN BaseEntries(ds, pw, o) \o ExtraEntries(ds, pw, o)
   ELSE BaseEntries(ds, pw, o)
-EntOf(ds, pw, xa) == [o \in OpSet |-> Entries(ds, pw, o, xa)]
+\* a jailed operator is not active: CalculateUSDValueForStaker returns 0 for every one of its stakers
+EntOf(ds, pw, xa, jl) ==
+  [o \in OpSet |-> IF o \in jl THEN [i \in DOMAIN Entries(ds, pw, o, xa) |-> [s |-> Entries(ds, pw, o, xa)[i].s, p |-> N0]]
+                   ELSE Entries(ds, pw, o, xa)]
 
 Setup(pw, rate, tax, reward, ids, xa) ==
   /\ hist = <<>>
@@ -76,7 +80,7 @@ Setup(pw, rate, tax, reward, ids, xa) ==
              ltp |-> FoldLeft(LAMBDA acc, i : acc + pw[i], 0, [i \in DOMAIN OPS |-> i]),
              vals |-> SelectSeq([i \in DOMAIN OPS |-> [o |-> OPS[i], pw |-> pw[i]]], LAMBDA v : v.pw > 0),
              rate |-> [o \in OpSet |-> rate[IdxOf(o)]],
-             ent |-> EntOf(<<>>, pw, xa), pw |-> pw, xa |-> xa]
+             ent |-> EntOf(<<>>, pw, xa, {}), pw |-> pw, xa |-> xa, jailed |-> {}]
   /\ hist' = <<[ev |-> "Setup", a |-> [pw |-> pw, rate |-> rate, tax |-> tax, reward |-> reward,
                                        distId |-> ids[1], mintId |-> ids[2], xa |-> xa, prec |-> PREC]]>>
   /\ UNCHANGED <<st, dels, chk, nep>>
@@ -106,8 +110,14 @@ Next ==
         /\ env.pw[IdxOf(o)] > 0
         /\ Do("Delegate", [s |-> s, a |-> ASSETS[ai], o |-> o, x |-> x])
         /\ dels' = Append(dels, [s |-> s, a |-> ASSETS[ai], o |-> o, x |-> x])
-        /\ env' = [env EXCEPT !.ent = EntOf(dels', env.pw, env.xa)]
+        /\ env' = [env EXCEPT !.ent = EntOf(dels', env.pw, env.xa, env.jailed)]
         /\ UNCHANGED nep
+  \/ \E o \in OpSet :
+        /\ hist # <<>>
+        /\ env.pw[IdxOf(o)] > 0 /\ o \notin env.jailed /\ Cardinality(env.jailed) < MAXJAIL
+        /\ Do("Jail", [o |-> o])
+        /\ env' = [env EXCEPT !.jailed = @ \cup {o}, !.ent = EntOf(dels, env.pw, env.xa, env.jailed \cup {o})]
+        /\ UNCHANGED <<dels, nep>>
   \/ \E ended \in SUBSET IDS :
         /\ ended # {} => nep < MAXEPOCHS
         /\ Do("Block", [ended |-> ended])
